@@ -1,27 +1,25 @@
-"""C07 - inbound application messages reach the application in order, exactly once.
-Family "seq" of Session.tla; monitors C07_* of Monitors.tla on traces of the real engine."""
+"""C07 - sequence numbers persist across connections and reset only when agreed.
+Family "life" of Session.tla; monitors C07_*."""
 from lib import common, sessfam
 
 LEVEL = 'model_checking'
 PID = 'C07'
 FAMILY = 'life'
 PROPS = ['P_C07']
+BASE = [{'role': 'acc', 'bs': 42}, {'role': 'init', 'bs': 42, 'resetOnLogon': True}, {'role': 'acc', 'bs': 42, 'resetOnLogout': True}]
+ALT = [{'role': 'init', 'bs': 44, 'resetOnDisconnect': True}, {'role': 'acc', 'bs': 44, 'resetOnLogon': True}, {'role': 'init', 'bs': 40, 'resetOnLogon': True}, {'role': 'init', 'bs': 42}, {'role': 'acc', 'bs': 41, 'resetOnDisconnect': True}, {'role': 'init', 'bs': 44, 'resetOnLogout': True}, {'role': 'acc', 'bs': 50, 'resetOnLogon': True, 'resetOnLogout': True, 'resetOnDisconnect': True}]
 
 
 def configs(ctx):
-    quick = ctx.tier == 'quick'
-    base = [dict(role='acc', bs=42, chunk=0), dict(role='acc', bs=42, chunk=2)]
-    alt = [dict(role='init', bs=44, chunk=0), dict(role='init', bs=40, chunk=2), dict(role='acc', bs=41, chunk=1),
-           dict(role='init', bs=50, chunk=0), dict(role='acc', bs=44, chunk=3), dict(role='init', bs=42, chunk=1)]
-    if quick:
-        return base + [alt[ctx.seed % len(alt)]]
-    return base + alt
+    if ctx.tier == 'quick':
+        return BASE + [ALT[(ctx.seed + i) % len(ALT)] for i in range(min(2, len(ALT)))]
+    return BASE + ALT
 
 
 def run(ctx):
-    sessfam.standard_run(ctx, PID, FAMILY, PROPS, configs(ctx),
-                         quick_budget=15000, thorough_budget=250000,
-                         statement='FromApp order / at-expected / advance-by-one / monotone counter')
+    sessfam.standard_run(ctx, PID, FAMILY, PROPS, configs(ctx), quick_budget=15000, thorough_budget=250000,
+                         quick_bounds={'maxIn': 3, 'maxOut': 3, 'maxEp': 1}, thorough_bounds={'maxIn': 4, 'maxOut': 4, 'maxEp': 2},
+                         statement='continuity, negotiated/configured resets, forward-only SequenceReset')
 
 
 def replay(ctx, path):
